@@ -289,7 +289,151 @@ func snakeBoard(r *rand.Rand, size int) *tak.Position {
 	return p
 }
 
+// completionCases: a road board with one road square emptied, then the road is completed BY A MOVE (placing a
+// flat, placing a capstone, sliding a neighbouring piece in); the positions come out of Position.Move, so the
+// incrementally maintained analysis is what gets tested; a few further placements elsewhere follow.
+func completionCases(c *ctx, size int) {
+	r := c.r
+	full := snakeBoard(r, size)
+	if r.Intn(2) == 0 {
+		full = roadBoard(r, size)
+	}
+	a := absOf(full)
+	// pick a road square holding a single road piece
+	var cand [][2]int
+	for y := 0; y < size; y++ {
+		for x := 0; x < size; x++ {
+			s := a.sq[y][x]
+			if len(s) == 1 && (s[0].Kind() == tak.Flat || s[0].Kind() == tak.Capstone) {
+				cand = append(cand, [2]int{x, y})
+			}
+		}
+	}
+	if len(cand) == 0 {
+		return
+	}
+	xy := cand[r.Intn(len(cand))]
+	col := a.sq[xy[1]][xy[0]][0].Color()
+	board := boardOf(full)
+	board[xy[1]][xy[0]] = nil
+	cfg := tak.Config{Size: size, BlackWinsTies: r.Intn(3) == 0}
+	fitReserves(r, &cfg, board)
+	cfg.Pieces += 3
+	if cfg.Pieces > 250 {
+		cfg.Pieces = 250
+	}
+	cfg.Capstones += 2
+	ply := 10
+	if col == tak.Black {
+		ply = 11
+	}
+	p0, err := tak.FromSquares(cfg, board, ply)
+	if err != nil {
+		return
+	}
+	var moves []tak.Move
+	moves = append(moves, tak.Move{X: int8(xy[0]), Y: int8(xy[1]), Type: tak.PlaceFlat}, tak.Move{X: int8(xy[0]), Y: int8(xy[1]), Type: tak.PlaceCapstone},
+		tak.Move{X: int8(xy[0]), Y: int8(xy[1]), Type: tak.PlaceStanding})
+	// slides of one piece from each neighbour into the gap
+	for _, d := range []struct {
+		dx, dy int
+		t      tak.MoveType
+	}{{-1, 0, tak.SlideRight}, {1, 0, tak.SlideLeft}, {0, -1, tak.SlideUp}, {0, 1, tak.SlideDown}} {
+		nx, ny := xy[0]+d.dx, xy[1]+d.dy
+		if nx >= 0 && ny >= 0 && nx < size && ny < size {
+			moves = append(moves, tak.Move{X: int8(nx), Y: int8(ny), Type: d.t, Slides: tak.MkSlides(1)})
+		}
+	}
+	for _, m := range moves {
+		q, err := p0.Move(m)
+		if err != nil {
+			continue
+		}
+		emitC02(c, q, "completed-by-move")
+		// the verdict must survive further moves elsewhere (the engine permits play past the end)
+		cur := q
+		for k := 0; k < 3; k++ {
+			legal := legalMoves(cur)
+			if len(legal) == 0 {
+				break
+			}
+			n, err := cur.Move(legal[r.Intn(len(legal))])
+			if err != nil {
+				break
+			}
+			cur = n
+			emitC02(c, cur, "after-completion")
+		}
+	}
+}
+
+// manyGroups: more road groups of at least two squares than the board is wide (6x6 and larger), optionally with a
+// real road among them, for both colours.
+func manyGroups(r *rand.Rand, size int) *tak.Position {
+	board := make([][]tak.Square, size)
+	for y := range board {
+		board[y] = make([]tak.Square, size)
+	}
+	occupied := func(x, y int) bool { return x >= 0 && y >= 0 && x < size && y < size && len(board[y][x]) > 0 }
+	touches := func(x, y int, col tak.Color) bool {
+		for _, d := range [][2]int{{1, 0}, {-1, 0}, {0, 1}, {0, -1}} {
+			nx, ny := x+d[0], y+d[1]
+			if occupied(nx, ny) && board[ny][nx][0].Color() == col && board[ny][nx][0].Kind() != tak.Standing {
+				return true
+			}
+		}
+		return false
+	}
+	roadCol := []tak.Color{tak.White, tak.Black, tak.NoColor}[r.Intn(3)]
+	if roadCol != tak.NoColor {
+		y := size - 1 // a straight road along the top row, listed LAST by the lowest-bit iteration
+		for x := 0; x < size; x++ {
+			board[y][x] = tak.Square{tak.MakePiece(roadCol, tak.Flat)}
+		}
+	}
+	for tries := 0; tries < 400; tries++ {
+		col := tak.White
+		if r.Intn(3) == 0 {
+			col = tak.Black
+		}
+		x, y := r.Intn(size), r.Intn(size)
+		x2, y2 := x+1, y
+		if r.Intn(2) == 0 {
+			x2, y2 = x, y+1
+		}
+		if x2 >= size || y2 >= size || occupied(x, y) || occupied(x2, y2) || touches(x, y, col) || touches(x2, y2, col) {
+			continue
+		}
+		board[y][x] = tak.Square{tak.MakePiece(col, tak.Flat)}
+		board[y2][x2] = tak.Square{tak.MakePiece(col, tak.Flat)}
+	}
+	cfg := tak.Config{Size: size, BlackWinsTies: r.Intn(3) == 0}
+	fitReserves(r, &cfg, board)
+	p, err := tak.FromSquares(cfg, board, 2+r.Intn(40))
+	if err != nil {
+		panic(err)
+	}
+	return p
+}
+
 func runC02(c *ctx) {
+	for b := 0; b < 40*c.scale; b++ {
+		completionCases(c, 3+b%6)
+	}
+	for b := 0; b < 60*c.scale; b++ {
+		p := manyGroups(c.r, 6+b%3)
+		a := p.Analysis()
+		if len(a.WhiteGroups) > p.Size() || len(a.BlackGroups) > p.Size() {
+			c.stat("boards_with_more_groups_than_size", 1)
+		}
+		emitC02(c, p, "many-groups")
+		// and one move later (analysis recomputed into the same storage scheme)
+		if legal := legalMoves(p); len(legal) > 0 {
+			if q, err := p.Move(legal[c.r.Intn(len(legal))]); err == nil {
+				emitC02(c, q, "many-groups")
+			}
+		}
+	}
 	if c.tier == "replay" {
 		if p, err := decodeEnc(readReplay(c).Input); err == nil {
 			emitC02(c, p, "replay")
